@@ -14,7 +14,7 @@ from vf import history, reader
 from vf.common import CaseResult, Check, Scratch, rng_for
 from vf.interpose import GlobalPatch, Interposer, patch_datetime
 
-ALPHABET = ["append", "append", "append", "multi", "delete", "delete_append", "expire", "expire",
+ALPHABET = ["append", "append", "append", "multi", "delete", "delete", "prebuilt", "delete_append", "expire", "expire",
             "delsnap", "delsnap", "retention", "prevmax", "reopen", "fail_commit"]
 DANGLING = 99
 
@@ -69,6 +69,9 @@ class C15(Check):
         for i in range(n):
             yield {"kind": "hist", "i": i, "seed": seed,
                    "clock": ["real", "coarse", "backwards", "frozen"][i % 4]}
+        for stored in ("lead", "nolead"):
+            for spelled in ("same", "lead", "nolead"):
+                yield {"kind": "delete_spelling", "stored": stored, "delete": spelled}
         nmax = 4 if tier == "quick" else 5
         for n_nodes in range(1, nmax + 1):
             options = [None, -1, DANGLING] + list(range(n_nodes))
@@ -80,8 +83,43 @@ class C15(Check):
     def run_case(self, case: Any, res: CaseResult, tier: str) -> None:
         if case["kind"] == "repoint":
             self._repoint(case, res)
+        elif case["kind"] == "delete_spelling":
+            self._delete_spelling(case, res)
         else:
             self._hist(case, res, tier)
+
+    def _delete_spelling(self, case: Any, res: CaseResult) -> None:
+        """a file delete removes exactly the named files, whichever of the two table-relative spellings
+        ('/data/x' or 'data/x') the manifest entry and the request use"""
+        rng = rng_for(0, "c15ds")
+        ip = Interposer().install()
+        try:
+            with Scratch("c15d") as d:
+                h = history.History(str(d / "t"), rng, ip=ip)
+                for op in [("append", 2), ("prebuilt", case["stored"], 2), ("append", 1)]:
+                    out = h.apply(op)
+                    assert out["ok"], out
+                    h.observe(op, True)
+                    if op[0] == "prebuilt":
+                        stored = out["spelled"]
+                before = h.last_view.current()
+                norm = reader.norm(stored)
+                victim = {"same": stored, "lead": "/" + norm, "nolead": norm}[case["delete"]]
+                with h.table.new_transaction() as tx:
+                    tx.delete_files([victim])
+                    tx.commit()
+                tv = h.observe(("delete", victim), True)
+                res.evals += 1
+                res.count("deletes_checked")
+                res.key(["delete_spelling", case["stored"], case["delete"]])
+                after = set(tv.current().files)
+                want = set(before.files) - {norm}
+                if after != want:
+                    res.violation(f"delete-not-exact:stored-{case['stored']}:request-{case['delete']}",
+                                  f"delete_files([{victim!r}]) on an entry stored as {stored!r} left {sorted(after)}, expected {sorted(want)}",
+                                  {"stored": stored, "request": victim})
+        finally:
+            ip.uninstall()
 
     # ------------------------------------------------------------------
     def _repoint(self, case: Any, res: CaseResult) -> None:
